@@ -70,6 +70,13 @@ SHARED_CONTENT = {
         "rx_sets": "hash-consed state descriptors (append-only)", "state_table": "transition table (MISSING -> state, write-once cells)",
         "state_descs": "per-state memo (append-only)", "num_transitions": "statistics", "num_ast_nodes": "statistics",
         "max_states": "limit (set per call from the engine's limits)", "fuel": "limit (set per call from the engine's limits)"},
+    # the per-state memo records: everything in them must be a function of the lexer state alone (never of the Earley row,
+    # the history or the calling engine), because every clone reads them
+    "llguidance::earley::regexvec::StateDesc": {
+        "state": "the state id itself", "greedy_accepting": "nullable lexemes of the state", "possible": "lexemes of the state",
+        "possible_lookahead_len": "memo of a function of the state's expressions", "lookahead_len": "memo of a function of the state's expressions",
+        "next_byte": "memo of a function of the state's expressions", "lazy_accepting": "function of the state's expressions",
+        "lazy_hidden_len": "function of the state's expressions", "has_special_token": "function of the state's expressions"},
 }
 
 
